@@ -360,7 +360,11 @@ func reportViolations(prop, engine string, viols []Violation) []Violation {
 		}
 	}
 	for _, v := range fresh {
-		p := writeReplay(prop, map[string]any{"property": prop, "engine": engine, "signature": v.Sig, "message": v.Msg})
+		body := map[string]any{"property": prop, "engine": engine, "signature": v.Sig, "message": v.Msg}
+		for k, x := range v.Replay {
+			body[k] = x
+		}
+		p := writeReplay(prop, body)
 		fmt.Printf("VIOLATION property=%s replay=%s\n", prop, p)
 		fmt.Fprintln(os.Stderr, "  "+v.Msg)
 	}
